@@ -584,7 +584,7 @@ func walletSelectedOnSuccess(p *an.Prog, guarded func(*ssa.BasicBlock) bool) map
 						continue
 					}
 					// tail call of a member
-					v := r.Results[len(r.Results)-1]
+					v := an.RetOperand(r, len(r.Results)-1)
 					if ex, ok := v.(*ssa.Extract); ok {
 						v = ex.Tuple
 					}
@@ -633,7 +633,7 @@ func alwaysNonNilResult(p *an.Prog, f *ssa.Function, idx int) bool {
 			continue
 		}
 		any = true
-		if p.ValState(r.Results[idx], b, nil) != an.NonNil {
+		if p.ValState(an.RetOperand(r, idx), b, nil) != an.NonNil {
 			return false
 		}
 	}
